@@ -7,6 +7,9 @@ import (
 	"errors"
 	"fmt"
 	"reflect"
+	"sort"
+	"strings"
+	"sync"
 
 	"github.com/NethermindEth/juno/blockchain"
 	"github.com/NethermindEth/juno/core"
@@ -52,10 +55,46 @@ func stubClass(h *felt.Felt) core.ClassDefinition {
 	}
 }
 
+// fetchCall accompanies one BlockByNumber call of the REAL feeder data source (through the context):
+// the state update it was served and the Class requests it made, in order.
+type fetchCallKey struct{}
+
+type classCall struct {
+	hash felt.Felt
+	ok   bool
+}
+
+type fetchCall struct {
+	orig   context.Context // the context the synchroniser passed (identity of the stream generation)
+	req    uint64
+	mu     sync.Mutex
+	su     *core.StateUpdate
+	calls  []classCall
+	ok     bool               // BlockByNumber returned a block
+	keys   []felt.Felt        // keys of the NewClasses it returned
+	known  map[felt.Felt]bool // class is in the node's head state (read right after the call)
+	stable bool               // no commit happened between the start of the call and that read
+}
+
+func fetchCallOf(ctx context.Context) *fetchCall {
+	fc, _ := ctx.Value(fetchCallKey{}).(*fetchCall)
+	return fc
+}
+
 func (a *snAdapter) StateUpdateWithBlock(ctx context.Context, n uint64) (*core.StateUpdate, *core.Block, error) {
-	cb, err := a.s.BlockByNumber(ctx, n)
+	fc := fetchCallOf(ctx)
+	inner := ctx
+	if fc != nil {
+		inner = fc.orig
+	}
+	cb, err := a.s.BlockByNumber(inner, n)
 	if err != nil {
 		return nil, nil, err
+	}
+	if fc != nil {
+		fc.mu.Lock()
+		fc.su = cb.StateUpdate
+		fc.mu.Unlock()
 	}
 	return cb.StateUpdate, cb.Block, nil
 }
@@ -83,6 +122,11 @@ func (a *snAdapter) Class(ctx context.Context, h *felt.Felt) (core.ClassDefiniti
 		s.hit("class-fetch:ok")
 	}
 	s.mu.Unlock()
+	if fc := fetchCallOf(ctx); fc != nil {
+		fc.mu.Lock()
+		fc.calls = append(fc.calls, classCall{*h, !fail})
+		fc.mu.Unlock()
+	}
 	if fail {
 		return nil, errInjected
 	}
@@ -124,12 +168,46 @@ func (a *snAdapter) PreConfirmedBlockLatest(ctx context.Context, id string, know
 type feederDS struct {
 	junosync.DataSource
 	rec *recorder
+	src *source
+	bc  *blockchain.Blockchain
+}
+
+func (d *feederDS) commitSeq() int {
+	d.rec.mu.Lock()
+	defer d.rec.mu.Unlock()
+	return d.rec.lastCommitSeq
 }
 
 func (d *feederDS) BlockByNumber(ctx context.Context, n uint64) (junosync.CommittedBlock, error) {
-	cb, err := d.DataSource.BlockByNumber(ctx, n)
+	fc := &fetchCall{orig: ctx, req: n}
+	seq0 := d.commitSeq()
+	cb, err := d.DataSource.BlockByNumber(context.WithValue(ctx, fetchCallKey{}, fc), n)
+	fc.mu.Lock()
+	su := fc.su
+	fc.mu.Unlock()
+	if su != nil && d.bc != nil {
+		fc.ok = err == nil
+		for h := range cb.NewClasses {
+			fc.keys = append(fc.keys, h)
+		}
+		fc.known = map[felt.Felt]bool{}
+		if st, closer, e := d.bc.HeadState(); e == nil {
+			for _, h := range diffClassHashes(su.StateDiff) {
+				hh := h
+				_, ce := st.Class(&hh)
+				fc.known[h] = ce == nil
+			}
+			_ = closer()
+		}
+		fc.stable = d.commitSeq() == seq0
+		d.rec.mu.Lock()
+		d.rec.fetchCalls = append(d.rec.fetchCalls, fc)
+		d.rec.mu.Unlock()
+	}
 	if err != nil {
 		d.rec.add(entry{Kind: eServeErr, Req: n, Fault: "data-source-error(class fetch / cancelled)"})
+	} else if d.src != nil {
+		d.src.adopt(cb.Block, cb.Persisted)
 	}
 	return cb, err
 }
@@ -163,6 +241,162 @@ func checkClasses(bc *blockchain.Blockchain, final []*lib.Bundle) string {
 				if string(g.Abi) != string(w.Abi) {
 					return fmt.Sprintf("cairo0 class %s declared in block %d differs from the source's definition", h.String(), b.Block.Number)
 				}
+			}
+		}
+	}
+	return ""
+}
+
+// diffClassHashes: the class hashes fetchUnknownClasses looks at — classes of deployed contracts,
+// declared Cairo-0 classes, declared Sierra classes (each section sorted; the code walks the two maps
+// in Go's random order).
+func diffClassHashes(d *core.StateDiff) []felt.Felt {
+	dep, v0, v1 := diffClassSections(d)
+	return append(append(dep, v0...), v1...)
+}
+
+func diffClassSections(d *core.StateDiff) (dep, v0, v1 []felt.Felt) {
+	for _, h := range d.DeployedContracts {
+		dep = append(dep, *h)
+	}
+	for _, h := range d.DeclaredV0Classes {
+		v0 = append(v0, *h)
+	}
+	for h := range d.DeclaredV1Classes {
+		v1 = append(v1, h)
+	}
+	less := func(l []felt.Felt) { sort.Slice(l, func(i, j int) bool { return l[i].Cmp(&l[j]) < 0 }) }
+	less(dep)
+	less(v1)
+	return dep, v0, v1
+}
+
+// checkClassFetches compares every BlockByNumber call of the real feeder data source with the model
+// of fetchUnknownClasses (driver op `classes`): on success the Class requests made = the classes
+// handed on as NewClasses = the model's set (the unknown classes of the diff, each once); on a failed
+// class fetch the model fails on the same class and every request before it was for an unknown class.
+func checkClassFetches(cr *caseResult, calls []*fetchCall, id *ids, drv *lib.Driver, replay func() any) int {
+	if drv == nil {
+		return 0
+	}
+	compared := 0
+	toks := func(l []felt.Felt) string {
+		var w []string
+		for i := range l {
+			w = append(w, fmt.Sprint(id.of(&l[i])))
+		}
+		return strings.Join(w, " ")
+	}
+	setOf := func(l []felt.Felt) map[string]bool {
+		m := map[string]bool{}
+		for i := range l {
+			m[fmt.Sprint(id.of(&l[i]))] = true
+		}
+		return m
+	}
+	sameSet := func(a, b map[string]bool) bool {
+		if len(a) != len(b) {
+			return false
+		}
+		for k := range a {
+			if !b[k] {
+				return false
+			}
+		}
+		return true
+	}
+	for _, fc := range calls {
+		if !fc.stable {
+			cr.hits["class-fetch:not-compared(a commit happened during the call)"]++
+			continue
+		}
+		var called []felt.Felt
+		var failed *felt.Felt
+		dup := false
+		seen := map[felt.Felt]bool{}
+		for i, c := range fc.calls {
+			if seen[c.hash] {
+				dup = true
+			}
+			seen[c.hash] = true
+			called = append(called, c.hash)
+			if !c.ok {
+				if i != len(fc.calls)-1 {
+					dup = true // a request after a failed one
+				}
+				h := c.hash
+				failed = &h
+			}
+		}
+		if !fc.ok && failed == nil {
+			cr.hits["class-fetch:not-compared(call failed for another reason: cancelled)"]++
+			continue
+		}
+		dep, v0, v1 := diffClassSections(fc.su.StateDiff)
+		var known, fail []felt.Felt
+		for h, k := range fc.known {
+			if k {
+				known = append(known, h)
+			}
+		}
+		if failed != nil {
+			fail = []felt.Felt{*failed}
+		}
+		q := fmt.Sprintf("classes K %s | D %s | V0 %s | V1 %s | F %s", toks(known), toks(dep), toks(v0), toks(v1), toks(fail))
+		a, err := drv.Ask(q)
+		if err != nil || a == "bad-op" {
+			cr.fatal = fmt.Sprintf("Lean driver failed on %q: %q %v", q, a, err)
+			return compared
+		}
+		compared++
+		model := map[string]bool{}
+		for _, w := range strings.Fields(a)[1:] {
+			model[w] = true
+		}
+		bad := ""
+		switch {
+		case dup:
+			bad = "a class was requested twice, or after a failed request"
+		case fc.ok && failed != nil:
+			bad = "BlockByNumber returned a block although a class fetch failed"
+		case fc.ok:
+			cr.hits["class-fetch:block-with-all-classes"]++
+			if !strings.HasPrefix(a, "ok") || !sameSet(model, setOf(called)) || !sameSet(model, setOf(fc.keys)) {
+				bad = "the classes requested / handed on as NewClasses are not the model's"
+			}
+			if len(model) == 0 {
+				cr.hits["class-fetch:nothing-to-fetch"]++
+			}
+			if len(known) > 0 {
+				cr.hits["class-fetch:some-class-already-in-state"]++
+			}
+		default:
+			cr.hits["class-fetch:failed-on-a-class"]++
+			if a != "err "+fmt.Sprint(id.of(failed)) {
+				bad = "the model does not fail on the class whose fetch failed"
+			}
+		}
+		if bad != "" {
+			cr.mismatches = append(cr.mismatches, lib.Mismatch{Sig: "class-fetch-differs-from-model", Input: replay(),
+				Model: q + " -> " + a, Impl: fmt.Sprintf("BlockByNumber(%d): ok=%v requested [%s] NewClasses [%s]: %s", fc.req, fc.ok, toks(called), toks(fc.keys), bad)})
+			return compared
+		}
+	}
+	return compared
+}
+
+// checkDeployedClasses (feeder mode): every class a contract of the converged chain was deployed with
+// is in the node's state (fetchUnknownClasses fetched it when the block was downloaded).
+func checkDeployedClasses(bc *blockchain.Blockchain, final []*lib.Bundle) string {
+	st, closer, err := bc.HeadState()
+	if err != nil {
+		return "HeadState: " + err.Error()
+	}
+	defer func() { _ = closer() }()
+	for _, b := range final {
+		for a, h := range b.SU.StateDiff.DeployedContracts {
+			if _, err := st.Class(h); err != nil {
+				return fmt.Sprintf("class %s of contract %s deployed in block %d: %v", h.String(), a.String(), b.Block.Number, err)
 			}
 		}
 	}
